@@ -54,3 +54,68 @@ def num_channels(name, D, **kw):
     if name in ("GrayScott", "Wave"):
         return 2
     return 1
+
+
+# ----------------------------------------------------------------------------- linear part of every semi-linear class (spec: Symbols.tla)
+SPEC_CLASS = {
+    "Burgers": "Burgers", "KortewegDeVries": "KortewegDeVries", "KuramotoSivashinsky": "KuramotoSivashinsky",
+    "KuramotoSivashinskyConservative": "KuramotoSivashinskyConservative",
+    "NavierStokesVorticity": "NavierStokes", "KolmogorovFlowVorticity": "NavierStokes",
+    "NavierStokesVelocity": "NavierStokes", "KolmogorovFlowVelocity": "NavierStokes",
+    "FisherKPP": "FisherKPP", "AllenCahn": "AllenCahn", "CahnHilliard": "CahnHilliard", "SwiftHohenberg": "SwiftHohenberg",
+    "GrayScott": "GrayScott",
+}
+SEMI_DN = [1012, 1009, 1016, 1008, 2006, 2005, 2008, 3004, 3005, 3006]
+
+
+def ctor_defaults(cls):
+    return {k: v.default for k, v in inspect.signature(cls.__init__).parameters.items() if v.default is not inspect._empty}
+
+
+def _pval(name, args):
+    v = 1.0
+    for f in name.split("*"):
+        v *= 1.0 if f == "one" else float(args[f])
+    return v
+
+
+def semi_lambda(name, D, N, tables, *, L=1.0, dt=0.01, **kw):
+    """-> (lambda array of shape (E,)+wshape with E in {1, C}, dt_eff): the documented linear symbol of stepper `name`
+    built with these arguments, from the TLC-generated term tables `tables` (harness.linear.load)."""
+    import numpy as np
+    from . import linear
+    cls = stepper_classes()[name]
+    args = dict(ctor_defaults(cls), **kw)
+    omega = 2 * np.pi / L
+    if name in SPEC_CLASS:
+        sc = SPEC_CLASS[name]
+        variants = [0]
+        if sc == "KortewegDeVries":
+            variants = [int(bool(args["advect_over_diffuse"])) + 2 * int(bool(args["diffuse_over_diffuse"]))]
+        if sc == "GrayScott":
+            variants = [0, 1]
+        lams = []
+        for v in variants:
+            table = tables[(sc, v, D, N)]
+            names = {c for terms in table.values() for c, _, _ in terms}
+            params = {c: _pval(c[0], args) for c in names}
+            lams.append(linear.symbol_array(D, N, table, params, omega))
+        return np.stack(lams), dt
+    # generic families
+    if "linear_coefficients" in args:
+        a, Le, dte = list(args["linear_coefficients"]), L, dt
+    elif "normalized_linear_coefficients" in args:
+        a, Le, dte = list(args["normalized_linear_coefficients"]), 1.0, 1.0
+    elif "linear_difficulties" in args:
+        g = list(args["linear_difficulties"])
+        a = [g[0]] + [g[j] / (N ** j * 2 ** (j - 1) * D) for j in range(1, len(g))]
+        Le, dte = 1.0, 1.0
+    else:
+        raise KeyError(name)
+    table = tables[("GeneralLinear", 0, D, N)]
+    params = {("a", j, 0): (a[j] if j < len(a) else 0.0) for j in range(0, 7)}
+    return linear.symbol_array(D, N, table, params, 2 * np.pi / Le)[None], dte
+
+
+def semilinear_names():
+    return [n for n in sorted(stepper_classes()) if n not in LINEAR]
